@@ -122,6 +122,11 @@ func propC07(c *ctx) error {
 		{[][2]string{{"t", `<template :define="card-a">A</template><template :define="card-b">B</template><ul><li :range="_, k : ks" :insert="card-${k}">x</li></ul>`}}, "t", `<ul><li>A</li><li>B</li><li>A</li></ul>`, ""},
 		{[][2]string{{"t", `<template :define="card-a">A</template><template :define="card-b">B</template><p :range="_, k : ks" :replace="card-${k}">x</p>|<p :range="_, k : ks"><i :with="j := ${k}" :insert="${'card-'}${j}">x</i></p>`}}, "t", `ABA|<p><i>A</i></p><p><i>B</i></p><p><i>A</i></p>`, ""},
 		{[][2]string{{"t", `<template :define="card-a">A</template><ul><li :range="_, k : ks" :insert="card-${k}">x</li></ul>`}}, "t", "", "tplNotFound"},
+		// an EMPTY file is a template like any other (a placeholder partial): inserting it inserts nothing
+		{[][2]string{{"t", `[<div :insert="empty.html">o</div>]`}, {"empty.html", ""}}, "t", `[<div></div>]`, ""},
+		{[][2]string{{"empty.html", ""}, {"t", `[<div :replace="empty.html">o</div>|<p :insert="${'empty' + '.html'}">o</p>]`}}, "t", `[|<p></p>]`, ""},
+		{[][2]string{{"empty.html", ""}}, "empty.html", ``, ""},
+		{[][2]string{{"blank.html", "\n"}, {"t", `[<div :insert="blank.html">o</div>]`}}, "t", "[<div>\n</div>]", ""},
 		// the directive attributes may be written with white space around `=` (the scanner accepts it): still directives
 		{[][2]string{{"t", `<p :define = "f">F</p>[<q :insert = "f">o</q>]`}}, "t", `[<q>F</q>]`, ""},
 		{[][2]string{{"t", "<p :define\n=\n\"f\">F</p>[<q :replace\t=\"f\">o</q>]"}}, "t", `[F]`, ""},
@@ -366,7 +371,18 @@ func propC16(c *ctx) error {
 	if err := c16Names(c, r); err != nil {
 		return err
 	}
-	return c16Order(c)
+	if err := c16Order(c); err != nil {
+		return err
+	}
+	for _, hot := range []bool{false, true} {
+		c.res.S3Checked++
+		c.res.count("render_instance_histories")
+		if why := instanceHistory(hot); why != "" {
+			c.res.violate(J{"sub": "one types.Render instance rendered repeatedly", "hot_reload": hot}, "each Render depends on its own writer only", why,
+				"a Render instance remembers the outcome of an earlier Render (a failed write) and returns it for later renders")
+		}
+	}
+	return nil
 }
 
 // c16Order: the bindings of one `with` are evaluated in the order in which they are written, in EVERY execution: functions
